@@ -248,6 +248,11 @@ unsafe impl Sync for MemoryChunk {}
 
 impl MemoryChunk {
     fn new(capacity: usize, alignment: usize) -> Result<Self> {
+        // A freed block stores the 4-byte link of its free list in its first bytes, through a
+        // `*mut u32`: blocks (multiples of the alignment) must be able to hold and align it
+        if alignment < 4 {
+            return Err(ZiporaError::invalid_data("alignment must be at least 4"));
+        }
         let layout = Layout::from_size_align(capacity, alignment)
             .map_err(|_| ZiporaError::invalid_data("Invalid memory layout"))?;
         
